@@ -4,8 +4,8 @@ import vlib
 from vlib import Check, tlc, tlc_must_hold, vh, workdir, write_ndjson
 
 PROP = "C06"
-TEMPLATE = ('CONSTANTS CliInit = {ci} SrvMax = {sm} MaxHist = {mh} MaxSteps = {ms} Window = {w} CliStart = "{cs}" KeepLog = {kl}\n'
-            'SPECIFICATION Spec\nVIEW view\nINVARIANTS SyncCorrect VersionOk Consistent NoStaleSession {emit}\n{prop}CHECK_DEADLOCK FALSE\n')
+TEMPLATE = ('CONSTANTS CliInit = {ci} SrvMax = {sm} MaxHist = {mh} MaxSteps = {ms} Window = {w} CliStart = "{cs}" KeepLog = {kl} Faults = {fl}\n'
+            'SPECIFICATION Spec\nVIEW view\nPROPERTY FailAtomic\nINVARIANTS SyncCorrect VersionOk Consistent NoStaleSession {emit}\n{prop}CHECK_DEADLOCK FALSE\n')
 
 
 def cfg(wd, name, **k):
@@ -13,6 +13,7 @@ def cfg(wd, name, **k):
     k.setdefault("emit", "Emit")
     k.setdefault("prop", "")
     k.setdefault("kl", "TRUE")
+    k.setdefault("fl", "FALSE")
     with open(path, "w") as f:
         f.write(TEMPLATE.format(**k))
     return path
@@ -21,7 +22,7 @@ def cfg(wd, name, **k):
 def trace_cfg(wd, name, ci, sm, w, cs):
     path = os.path.join(wd, name)
     with open(path, "w") as f:
-        f.write(f'CONSTANTS CliInit = {ci} SrvMax = {sm} MaxHist = 1000000 MaxSteps = 1000000 Window = {w} CliStart = "{cs}" KeepLog = FALSE\n'
+        f.write(f'CONSTANTS CliInit = {ci} SrvMax = {sm} MaxHist = 1000000 MaxSteps = 1000000 Window = {w} CliStart = "{cs}" KeepLog = FALSE Faults = FALSE\n'
                 'SPECIFICATION TraceSpec\nINVARIANTS SyncCorrect VersionOk NoStaleSession\nPOSTCONDITION TraceAccepted\nCHECK_DEADLOCK FALSE\n')
     return path
 
@@ -43,6 +44,13 @@ def run(tier, seed):
         vlib.require_coverage(r, ["SrcUpdate", "CliBegin", "SrvQuery", "SrvSendEod", "CliApply"], f"RtrSession {ci}/{sm}/{cs}/{w}")
         c.add_tlc(r, f"client v{ci} / server max v{sm} / start {cs} / window {w}: 2 source versions, 2 steps: SyncCorrect VersionOk Consistent NoStaleSession")
         cases += r.replay
+    # transport faults: the connection may break at any point of a response (ConnLost); the library's server only
+    for (ci, sm, cs, w) in ([(2, 2, "stale", 1), (1, 2, "none", 1)] if quick else [(2, 2, "stale", 1), (1, 2, "none", 1), (0, 2, "stale", 1), (2, 2, "foreign", 0)]):
+        r = tlc("MC_RtrSession", cfg(wd, "faults.cfg", ci=ci, sm=sm, mh=2, ms=2, w=w, cs=cs, fl="TRUE"), workers=workers, xmx="8g", timeout=1800)
+        tlc_must_hold(r, f"RtrSession faults {ci}/{sm}/{cs}/{w}")
+        vlib.require_coverage(r, ["ConnLost"], f"RtrSession faults {ci}/{sm}/{cs}/{w}")
+        c.add_tlc(r, f"with transport faults: client v{ci} / server v{sm} / start {cs}: ConnLost at every point of every response; FailAtomic")
+        cases += [x for x in r.replay if x["log"][-1]["a"] == "lost"]
     # liveness (fairness, no emission) on the downgrade configuration
     r = tlc("MC_RtrSession", cfg(wd, "live.cfg", ci=2, sm=1, mh=2, ms=2, w=1, cs="stale", emit="", prop="PROPERTY Progress\n", kl="FALSE"),
             workers=workers, xmx="8g", timeout=1800)
